@@ -68,7 +68,7 @@ def c03 (kind : String) (inp impl : Json) : Verdict :=
     let run := runAnalysis inp
     let specv := if jstr impl "err" != "" then "na" else specC03 inp impl
     let specv := if specv == "ok" && jstr inp "engine" == "mysql" then mysqlTextOrder inp else specv
-    { model := run.model, compare := !walkPanic, frag := if walkPanic then "out:walk-panic" else "in",
+    { model := run.model, compare := !walkPanic && !reparseRejected impl, frag := if walkPanic then "out:walk-panic" else if reparseRejected impl then "out:reparse-rejected" else "in",
       specImpl := specv, trig := run.trig, implProj := some (implProjection impl) }
   | _ => { compare := false, frag := "e2e" }
 
